@@ -272,9 +272,9 @@ def check_C13(tier, seed):
 # ----------------------------------------------------------------------------- T1-based properties
 T1_PROPS = {
     # pid: (coq target, blamed clauses, generator profiles, description)
-    'C02': dict(target='Properties_C02', clauses=['C02', 'HARNESS', 'CRASH', 'C17'], profiles=['grow', 'churn', 'mixed', 'resize', 'locked']),
+    'C02': dict(target='Properties_C02', clauses=['C02', 'HARNESS', 'CRASH', 'C17'], profiles=['grow', 'churn', 'mixed', 'resize', 'locked', 'workers']),
     'C05': dict(target='Properties_C05', clauses=['C05'], profiles=['churn', 'resize', 'stream', 'mixed', 'locked', 'special', 'grow', 'stream']),
-    'C09': dict(target='Properties_C09', clauses=['C09'], profiles=['locked', 'locked', 'mixed']),
+    'C09': dict(target='Properties_C09', clauses=['C09'], profiles=['locked', 'locked', 'mixed', 'workers']),
     'C10': dict(target='Properties_C10', clauses=['C10'], profiles=['resize', 'resize', 'mixed', 'grow']),
     'C17': dict(target='Properties_C17', clauses=['C17'], profiles=['churn', 'grow', 'mixed']),
     'C08': dict(target='Properties_C08', clauses=['HARNESS', 'CRASH', 'LEAK'], profiles=['churn', 'grow', 'resize', 'special', 'locked'], kinds=[1]),
@@ -291,6 +291,8 @@ def blame_kinds(res):
         kinds.add('CRASH')
     if res['status'] == 'harness_error':
         kinds.add('HARNESS')
+    if res['status'] == 'life':
+        kinds.add('LEAK')
     if res['status'] == 'mismatch':
         d = res.get('detail', {})
         if str(d.get('impl', '')).startswith('END ') or str(d.get('model', '')).startswith('END '):
@@ -614,7 +616,11 @@ def check_C07(tier, seed):
     for i in range(n):
         c = cfgs[i % len(cfgs)]
         sc = gen.gen_script(rng.getrandbits(48), c, nops=rng.choice([30, 50, 80]), poison=True,
-                            profile=rng.choice(['grow', 'churn', 'resize', 'mixed', 'locked']))
+                            profile=rng.choice(['grow', 'churn', 'resize', 'mixed', 'locked', 'resize']))
+        if c['kind'] == 0 and i % 2 == 1:
+            # helper threads: rebuilds and migrations are split over worker threads (only the abstract
+            # outcome is judged in fault mode, so the nondeterministic placement does not matter)
+            sc = re.sub(r'^(0 mhp \d+)$', r'\1\n0 workers %d' % rng.choice([1, 2, 3]), sc, count=1, flags=re.M)
         jobs.append((bins[t1.cfg_name(c)], sc, t1.cfg_name(c), keep))
     with concurrent.futures.ThreadPoolExecutor(max_workers=16) as ex:
         res = list(ex.map(run_seq_faults, jobs))
